@@ -47,7 +47,7 @@ impl Compile for Class {
     fn compile(&self, state: &super::CompilationState) -> Result<Vec<CompiledItem>, anyhow::Error> {
         let body_compiled = self.body.compile(state)?;
 
-        let id = CompiledFunctionId::Custom(self.class_type.name().to_owned());
+        let id = CompiledFunctionId::Custom(self.class_type.bytecode_name().to_owned());
 
         let compiled_class = CompiledItem::Function {
             id: id.clone(),
@@ -125,9 +125,29 @@ impl DebugPrintableLock {
     }
 }
 
+/// The name a class goes by in the bytecode. It plays no part in the identity of the type.
+#[derive(Clone)]
+struct BytecodeName(Arc<String>);
+
+impl PartialEq for BytecodeName {
+    fn eq(&self, _other: &Self) -> bool {
+        true
+    }
+}
+
+impl Eq for BytecodeName {}
+
+impl Hash for BytecodeName {
+    fn hash<H: std::hash::Hasher>(&self, _state: &mut H) {}
+}
+
 #[derive(Clone, Hash, PartialEq, Eq)]
 pub(crate) struct ClassType {
     name: Arc<String>,
+    /// `name` for a class declared at the top level of its file; a class declared inside a
+    /// function or block gets a name of its own, because another function or branch of the
+    /// same file may declare a class with the same source name.
+    bytecode_name: BytecodeName,
     fields: Arc<[Ident]>,
     path_str: Arc<PathBuf>,
     /// If adding more fields, you MUST update the `PartialEq`!
@@ -197,6 +217,7 @@ impl Parser {
 impl ClassType {
     pub fn new(name: Arc<String>, fields: Arc<[Ident]>, path_str: Arc<PathBuf>) -> Self {
         Self {
+            bytecode_name: BytecodeName(Arc::clone(&name)),
             name,
             fields,
             path_str,
@@ -206,11 +227,25 @@ impl ClassType {
 
     pub fn new_callable(name: Arc<String>, fields: Arc<[Ident]>, path_str: Arc<PathBuf>) -> Self {
         Self {
+            bytecode_name: BytecodeName(Arc::clone(&name)),
             name,
             fields,
             path_str,
             debug_lock: Arc::new(DebugPrintableLock::new()),
         }
+    }
+
+    pub fn with_bytecode_name(mut self, bytecode_name: String) -> Self {
+        self.bytecode_name = BytecodeName(Arc::new(bytecode_name));
+        self
+    }
+
+    pub fn bytecode_name(&self) -> &str {
+        &self.bytecode_name.0
+    }
+
+    pub(crate) fn arced_bytecode_name(&self) -> Arc<String> {
+        Arc::clone(&self.bytecode_name.0)
     }
 
     pub fn with_new_fields(mut self, fields: Arc<[Ident]>) -> Self {
@@ -330,16 +365,26 @@ impl Parser {
 
         let body_node = children.next().unwrap();
 
+        let local_bytecode_name = if input.user_data().is_at_module_level() {
+            None
+        } else {
+            Some(input.user_data().next_local_class_name(ident.name()))
+        };
+
         let (body, class_type) = {
             let _class_scope = input.user_data().push_class_unknown_self();
 
             let fields = ClassBody::get_members(&body_node).to_err_vec()?;
 
-            let class_type = ClassType::new_callable(
+            let mut class_type = ClassType::new_callable(
                 Arc::new(ident.name().to_owned()),
                 fields,
                 input.user_data().bytecode_path(),
             );
+
+            if let Some(bytecode_name) = local_bytecode_name {
+                class_type = class_type.with_bytecode_name(bytecode_name);
+            }
 
             let class_type = input.user_data().set_self_type_of_class(class_type);
 
